@@ -419,6 +419,18 @@ type CallUpdate struct {
 	GhostUpdate
 }
 
+type CallAssert struct {
+	Callee string
+	Clause
+}
+
+// Protect: every read / write of the struct field must satisfy the given condition over the function's ghosts.
+type Protect struct {
+	Type, Field string
+	Read, Write *Clause
+	Pkg         string
+}
+
 type GhostUpdate struct {
 	Name string
 	Expr Expr
@@ -451,6 +463,7 @@ type FuncContract struct {
 	Decreases *Clause
 	Lets     []Param // let name = expr (Type holds the expression source)
 	CallUpdates []CallUpdate // call NAME update G = expr
+	CallAsserts []CallAssert // call NAME assert [tags] expr
 	Ghosts   []Param // ghost name type
 	Inits    []GhostUpdate
 }
@@ -464,6 +477,8 @@ type UFunc struct {
 type ContractSet struct {
 	UFuncs map[string]*UFunc
 	Axioms []Clause
+	Protects []Protect
+	Groups map[string][]string // named clause groups (raw clause lines), expanded by 'include'
 	Lemmas []Clause // proved standalone; usable like axioms by functions that 'uses' one of their tags
 	Preds map[string]*Pred
 	Funcs map[string]*FuncContract // key: pkgpath + "::" + ssa name
@@ -471,11 +486,11 @@ type ContractSet struct {
 }
 
 func NewContractSet() *ContractSet {
-	return &ContractSet{Preds: map[string]*Pred{}, Funcs: map[string]*FuncContract{}, UFuncs: map[string]*UFunc{}}
+	return &ContractSet{Preds: map[string]*Pred{}, Funcs: map[string]*FuncContract{}, UFuncs: map[string]*UFunc{}, Groups: map[string][]string{}}
 }
 
 var clauseKeywords = map[string]bool{"pred": true, "func": true, "requires": true, "ensures": true, "loop": true,
-	"modifies": true, "ufunc": true, "axiom": true, "lemma": true, "noframe": true, "opaque": true, "reveal": true, "uses": true, "trusted": true, "pure": true, "safe": true, "decreases": true, "let": true, "ghost": true, "init": true, "call": true, "package": true}
+	"modifies": true, "ufunc": true, "axiom": true, "lemma": true, "noframe": true, "opaque": true, "reveal": true, "uses": true, "protect": true, "group": true, "include": true, "end": true, "trusted": true, "pure": true, "safe": true, "decreases": true, "let": true, "ghost": true, "init": true, "call": true, "package": true}
 
 // ParseContractFile reads the //@ lines of one file.
 func (cs *ContractSet) ParseContractFile(path, pkgPath string) error {
@@ -512,6 +527,34 @@ func (cs *ContractSet) ParseContractFile(path, pkgPath string) error {
 			continue
 		}
 		items = append(items, line{i + 1, b})
+	}
+	// clause groups: "group NAME" ... "end" define reusable clause lists; "include NAME" expands them in place
+	{
+		var out []line
+		var gname string
+		for _, it := range items {
+			f := strings.Fields(it.text)
+			switch {
+			case f[0] == "group" && len(f) == 2:
+				gname = f[1]
+				cs.Groups[gname] = nil
+			case f[0] == "end" && gname != "":
+				gname = ""
+			case gname != "":
+				cs.Groups[gname] = append(cs.Groups[gname], it.text)
+			case f[0] == "include" && len(f) == 2:
+				g, ok := cs.Groups[f[1]]
+				if !ok {
+					return fmt.Errorf("%s:%d: unknown group %s", path, it.n, f[1])
+				}
+				for _, t := range g {
+					out = append(out, line{it.n, t})
+				}
+			default:
+				out = append(out, it)
+			}
+		}
+		items = out
 	}
 	var cur *FuncContract
 	for _, it := range items {
@@ -593,6 +636,26 @@ func (cs *ContractSet) ParseContractFile(path, pkgPath string) error {
 				uf.Params = append(uf.Params, Param{f[0], strings.Join(f[1:], "")})
 			}
 			cs.UFuncs[uf.Name] = uf
+		case "protect":
+			// protect T.field read EXPR write EXPR
+			ri := strings.Index(rest, " read ")
+			wi := strings.Index(rest, " write ")
+			if ri < 0 || wi < ri {
+				return fmt.Errorf("%s:%d: protect T.field read EXPR write EXPR", path, it.n)
+			}
+			tf := strings.SplitN(strings.TrimSpace(rest[:ri]), ".", 2)
+			if len(tf) != 2 {
+				return fmt.Errorf("%s:%d: protect needs Type.field", path, it.n)
+			}
+			rc, err := mk(rest[ri+6 : wi])
+			if err != nil {
+				return err
+			}
+			wc, err := mk(rest[wi+7:])
+			if err != nil {
+				return err
+			}
+			cs.Protects = append(cs.Protects, Protect{Type: tf[0], Field: tf[1], Read: &rc, Write: &wc, Pkg: pkgPath})
 		case "axiom", "lemma":
 			c, err := mk(rest)
 			if err != nil {
@@ -651,6 +714,14 @@ func (cs *ContractSet) ParseContractFile(path, pkgPath string) error {
 				cur.Ghosts = append(cur.Ghosts, Param{fields[1], strings.Join(fields[2:], "")})
 			case "call":
 				// call NAME update G = expr
+				if ka := strings.Index(rest, " assert "); ka >= 0 && !strings.Contains(rest[:ka], " update ") {
+					c, err := mk(rest[ka+len(" assert "):])
+					if err != nil {
+						return err
+					}
+					cur.CallAsserts = append(cur.CallAsserts, CallAssert{strings.TrimSpace(rest[:ka]), c})
+					continue
+				}
 				k := strings.Index(rest, " update ")
 				if k < 0 {
 					return fmt.Errorf("%s:%d: call NAME update G = expr", path, it.n)
